@@ -171,7 +171,7 @@ type step struct {
 
 var protectedOps = []string{"GET /accessories", "GET /characteristics", "PUT value", "PUT ev", "POST /pairings add", "POST /pairings remove", "POST /pairings add-accessory-name", "POST /resource"}
 var handshakeOps = []string{"setup M1", "setup M3 wrong-proof", "setup M3 A=0", "setup M5 zero-key", "verify M1", "verify M1 short-key", "verify M3 unknown-name", "verify M3 accessory-name",
-	"verify M3 L-bad-signature", "verify M3 zero-key", "verify M3 short", "identify", "L read", "L write", "L subscribe", "switch-connection", "encrypted GET /accessories", "encrypted PUT value"}
+	"verify M3 L-bad-signature", "verify M3 zero-key", "verify M3 short", "identify", "L read", "L write", "L subscribe", "switch-connection", "encrypted GET /accessories", "encrypted PUT value", "encrypted-zero GET /accessories", "encrypted-zero PUT value"}
 
 func (w *world) request(op string, rnd *rand.Rand, at *attacker) (method, target, ctype string, body []byte, protected bool) {
 	aid := w.sw.Accessory.ID
@@ -235,6 +235,30 @@ func main() {
 		for _, y := range protectedOps {
 			histories = append(histories, []step{{Op: x}, {Op: y}})
 		}
+	}
+	// every forged / failed pair-verify followed by ciphertext under the key of that exchange, and the same after
+	// a failed or forged pair-setup
+	for _, x := range handshakeOps {
+		if strings.HasPrefix(x, "verify M3") || strings.HasPrefix(x, "setup") || x == "verify M1 short-key" {
+			for _, y := range []string{"encrypted GET /accessories", "encrypted PUT value", "encrypted-zero GET /accessories"} {
+				histories = append(histories, []step{{Op: "verify M1"}, {Op: x}, {Op: y}})
+				histories = append(histories, []step{{Op: "verify M1"}, {Op: x}, {Op: "verify M1"}, {Op: y}})
+			}
+			for _, y := range protectedOps {
+				histories = append(histories, []step{{Op: "verify M1"}, {Op: x}, {Op: y}})
+			}
+		}
+	}
+	for _, seq := range [][]string{
+		{"setup M1", "setup M3 A=0", "setup M5 zero-key", "GET /accessories"},
+		{"setup M1", "setup M3 wrong-proof", "setup M5 zero-key", "POST /pairings add"},
+		{"setup M1", "setup M5 zero-key", "PUT value"},
+	} {
+		var h []step
+		for _, o := range seq {
+			h = append(h, step{Op: o})
+		}
+		histories = append(histories, h)
 	}
 	if r.Thorough() {
 		for _, x := range alph {
@@ -387,15 +411,13 @@ func runHistory(w *world, hno int, h []step, rnd *rand.Rand) {
 			}
 			w.mu.Unlock()
 			continue
-		case strings.HasPrefix(st.Op, "encrypted "):
-			// ciphertext under every key the attacker can derive itself: the last exchange's secret, and the all-zero secret
-			keys := append([][]byte{}, at.keys...)
-			keys = append(keys, make([]byte, 32))
-			sh := keys[rnd.Intn(len(keys))]
-			if len(at.keys) > 0 && rnd.Intn(2) == 0 {
+		case strings.HasPrefix(st.Op, "encrypted"):
+			// ciphertext under a key the attacker can derive itself: the last exchange's secret, or the all-zero secret
+			sh := make([]byte, 32)
+			if len(at.keys) > 0 && strings.HasPrefix(st.Op, "encrypted ") {
 				sh = at.keys[len(at.keys)-1]
 			}
-			op := strings.TrimPrefix(st.Op, "encrypted ")
+			op := strings.TrimPrefix(strings.TrimPrefix(st.Op, "encrypted-zero "), "encrypted ")
 			method, target, ctype, body, _ := w.request(op, rnd, at)
 			before := w.state()
 			at.c.Secure(sh)
